@@ -183,6 +183,7 @@ func Load(dir string, lc LoadConfig) (*Program, error) {
 		nfiles += len(pkg.Syntax)
 	}
 	p.Stats["files"] = nfiles
+	computeFuncAliases(p)
 	return p, nil
 }
 
@@ -282,8 +283,39 @@ func (p *Program) InstrPos(in ssa.Instruction) string {
 
 // LangFunc finds a package-level function or method of package lang by its
 // (receiver-qualified) name, e.g. "EvalProgram", "(*Evaluator).evalExpr", "(*Value).GetMember".
-func (p *Program) LangFunc(name string) *ssa.Function { return p.pkgFunc(p.Lang, name) }
-func (p *Program) CliFunc(name string) *ssa.Function  { return p.pkgFunc(p.Cli, name) }
+func (p *Program) LangFunc(name string) *ssa.Function {
+	if f := p.pkgFunc(p.Lang, name); f != nil {
+		return f
+	}
+	return aliasedFunc(canonicalFuncName("lang", name))
+}
+func (p *Program) CliFunc(name string) *ssa.Function {
+	if f := p.pkgFunc(p.Cli, name); f != nil {
+		return f
+	}
+	return aliasedFunc(canonicalFuncName("cli", name))
+}
+
+// canonicalFuncName: "NewEvaluator" -> "lang.NewEvaluator"; "(*Parser).advance" -> "(*lang.Parser).advance".
+func canonicalFuncName(pkg, name string) string {
+	if strings.HasPrefix(name, "(*") {
+		return "(*" + pkg + "." + name[2:]
+	}
+	if strings.HasPrefix(name, "(") {
+		return "(" + pkg + "." + name[1:]
+	}
+	return pkg + "." + name
+}
+
+// aliasedFunc: the function that goes by this (frozen) name after a rename.
+func aliasedFunc(short string) *ssa.Function {
+	for f, a := range funcAlias {
+		if a == short {
+			return f
+		}
+	}
+	return nil
+}
 
 func (p *Program) pkgFunc(pkg *packages.Package, name string) *ssa.Function {
 	sp := p.SSAPkgs[pkg.ID]
@@ -413,11 +445,16 @@ func shortName(f *ssa.Function) string {
 	if f == nil {
 		return "<nil>"
 	}
-	s := f.String()
-	s = strings.ReplaceAll(s, langPath+".", "lang.")
-	s = strings.ReplaceAll(s, cliPath+".", "cli.")
-	s = strings.ReplaceAll(s, modPath+".", "main.")
-	return s
+	// a consistently renamed function goes by the name the rules know (funccanon.go); its closures too
+	root := f
+	for root.Parent() != nil {
+		root = root.Parent()
+	}
+	if alias, ok := funcAlias[root]; ok {
+		raw := rawShortName(f)
+		return alias + strings.TrimPrefix(raw, rawShortName(root))
+	}
+	return rawShortName(f)
 }
 
 // namedOf returns the *types.Named behind T (through pointers), or nil.
